@@ -1,0 +1,33 @@
+//go:build verif
+
+package schema
+
+import (
+	"reflect"
+
+	"github.com/getkin/kin-openapi/openapi3"
+)
+
+// VerifConvertType is ConvertStructToOpenAPISchemaWithOptions for a run-time type: the body below
+// is the same dispatch, with reflect.TypeOf(zero) replaced by the parameter.
+func VerifConvertType(t reflect.Type, style ReferenceStyle) *openapi3.Schema {
+	options := DefaultConverterOptions
+	options.RefStyle = style
+	switch options.RefStyle {
+	case RefStyleDefs:
+		gen := NewGenerator(options)
+		schema := gen.generateWithRefs(t)
+		if len(gen.defs) > 0 {
+			if schema.Extensions == nil {
+				schema.Extensions = make(map[string]interface{})
+			}
+			schema.Extensions["$defs"] = gen.defs
+		}
+		return schema
+	case RefStyleNested:
+		return convertWithNestedRefs(t)
+	default:
+		visited := make(map[reflect.Type]*openapi3.Schema)
+		return convertReflectTypeToSchemaWithVisited(t, visited)
+	}
+}
